@@ -348,8 +348,9 @@ func drawRequest(w *simrt.Tape) (*request, string) {
 		req.Parameters[i], req.Parameters[j] = req.Parameters[j], req.Parameters[i]
 	}
 	T := sizeDraw(w, 12, 70)
-	if maxDim == 0 && w.Choose(25) == 24 && runsOverZeroSteps(name, desc, col) {
-		// every series empty: a run over zero timesteps (for the models whose kernels accept that)
+	if maxDim == 0 && w.Choose(25) == 24 {
+		// every series empty: a run over zero timesteps.  The runner must answer whatever the kernel
+		// makes of an empty series (a kernel that indexes it crashes the process: StorageTrapAll did)
 		T = 0
 	}
 	ins := domains.GenInputs(w, name, col, maxDim, T)
@@ -993,28 +994,3 @@ func swapFirstLetterCase(name string) string {
 }
 
 
-// runsOverZeroSteps reports whether a direct one-cell run of the model over zero timesteps works
-// (some kernels read the first element of a series unconditionally: for them an empty series is
-// outside the working domain, through every front end).
-var zeroStepsOK = map[string]bool{}
-
-func runsOverZeroSteps(name string, desc sim.ModelDescription, col []float64) (ok bool) {
-	if v, seen := zeroStepsOK[name]; seen {
-		return v
-	}
-	defer func() {
-		if r := recover(); r != nil {
-			if _, is := r.(refCrash); !is {
-				panic(r)
-			}
-			ok = false
-		}
-		zeroStepsOK[name] = ok
-	}()
-	empty := make([][]float64, len(desc.Inputs))
-	for i := range empty {
-		empty[i] = []float64{}
-	}
-	refRun(name, desc, col, 0, initialStateRow(name, desc, col, 0), empty, 0)
-	return true
-}
